@@ -34,7 +34,7 @@ var bigValuesProfile = false
 
 // genSkipStream builds the item list and the stream.
 func genSkipStream(c *sim.Ctx, st *sim.Stream, maxDepth int) (items []skipItem, stream []byte) {
-	o := &ref.GenOpts{MaxBytes: 6000, BigString: true, MaxDepth: 6}
+	o := &ref.GenOpts{MaxBytes: 6000, BigString: true, HugeString: !bigValuesProfile, MaxDepth: 6}
 	nv := 1 + st.Choose(8)
 	key := uint64(c.Seed)*911 + uint64(c.Index)*65537 + 3
 	for i := 0; i < nv; i++ {
